@@ -217,6 +217,7 @@ def write_evidence(prop, tier, seed, results, undecided, violations, known_hits,
             "samples": samples,
             "solver_time_s": round(sum((r.get("solver_s") or 0) for r in results), 2),
             "known_findings_hit": known_hits,
+            "hoisted_items": hoisted_items(sel),
             "canaries": [{"id": r["id"], "harness": r["harness"], "must_fail": True, "failed": r["raw_status"] == "FAILED"} for r in results if r["kind"] == "canary"],
             "undecided": undecided,
             "repo_tree": vlib.repo_fingerprint(),
@@ -243,6 +244,31 @@ def property_assumptions(prop):
         if k["property"] == prop and k["record"].startswith("open:"):
             out.append(f"open known finding {k['id']}: obligation {k['obligation']} is proved only outside region `{k['region']}`")
     return sorted(set(out))
+
+
+def hoisted_items(sel):
+    """What tools/vextract.py copied verbatim out of function bodies for the units of this run: file,
+    enclosing function, first line and a hash of each copied item (re-extracted from /repo's current
+    source, exactly as the injection does)."""
+    import hashlib
+    import vextract
+    out = []
+    for unit in sorted({o.unit for o in sel}):
+        src = (vlib.KANI_DIR / f"{unit}.rs").read_text()
+        for m in re.finditer(r"^//@hoist-all (.*)$", src, re.M):
+            rel, fn = [x.strip() for x in m.group(1).split("|")]
+            try:
+                text = vextract.hoist_all(REPO, rel, fn)
+            except Undecided as e:
+                out.append({"unit": unit, "file": rel, "function": fn, "error": str(e)})
+                continue
+            items = []
+            for block in text.split("// ---- hoisted verbatim from ")[1:]:
+                head, _, body = block.partition("\n")
+                first = next((l.strip() for l in body.split("\n") if l.strip() and not l.strip().startswith("#[")), "")
+                items.append({"at": head.split(" (")[0], "starts": first[:80], "sha256": hashlib.sha256(body.encode()).hexdigest()[:12]})
+            out.append({"unit": unit, "file": rel, "function": fn, "dropped": "the rest of the function body (statements, closures, deeper items), comments between items", "items": items})
+    return out
 
 
 def vlib_scan(sel, vobs):
